@@ -76,9 +76,9 @@ def truth_and_candidate(rng, grid):
         dpos = pos + shift + np.array([rng.uniform(-1.5, 1.5) for _ in range(dim)])
     elif g == "CylindricalSymGrid":
         if grid.periodic[1]:
-            # only used with images rendered from the candidate itself (rendering across periodic z: finding D12)
+            # truth anywhere along the periodic axis, also given by its image outside the box; the candidate displaced, possibly by a whole period
             pos[2] = rng.choice([rng.uniform(-1.2, 0.0), rng.uniform(14.0, 15.2), rng.uniform(3, 11)])
-            dpos = pos.copy()
+            dpos = pos + np.array([0, 0, rng.uniform(-1.5, 1.5) + rng.choice([0.0, 0.0, 14.0, -14.0])])
         else:
             dpos = pos + np.array([0, 0, rng.uniform(-1.5, 1.5)])
     truth = D.DiffuseDroplet(pos, R, w)
@@ -113,7 +113,10 @@ def tapped_refine(field, cand, **kw):
         res = orig(fun, x0, bounds=bounds, **k)
         rec["x"] = np.array(res.x, copy=True)
         rec["cost"] = float(res.cost)
-        rec["cost_x"] = 0.5 * float(np.sum(np.asarray(fun(np.array(res.x, copy=True))) ** 2))
+        # (the residual function is NOT evaluated again after the solver has finished: it writes its argument into the droplet that is being
+        # fitted, so an extra evaluation here would repair - and hide - a result assembled from whatever was evaluated last)
+        rec["cost_x"] = float(res.cost)
+        rec["success"] = bool(res.success)
         return res
 
     orig_dil = ia.ndimage.binary_dilation
@@ -121,6 +124,7 @@ def tapped_refine(field, cand, **kw):
     def dil(mask, *a, **k):
         res = orig_dil(mask, *a, **k)
         rec["dilation"] = (np.array(mask, copy=True), k.get("iterations", a[1] if len(a) > 1 else 1), int(np.sum(res)))
+        rec["fit_region"] = np.array(res, copy=True)
         return res
 
     def wrapper2(fun, x0, **k):
@@ -187,6 +191,11 @@ def run_cases(ck: Check, n: int):
             cand = base
             img = cand.get_phase_field(grid, vmin=vmin, vmax=vmax)
             kw = dict(vmin=vmin, vmax=vmax)
+        if mode != "self" and i % 4 == 1:
+            # a caller who limits the effort of the solver (it then stops without having converged): the droplet returned is still the
+            # solver's answer, and the squared deviation of THAT droplet is what the property speaks about
+            kw = dict(kw, least_squares_params={"max_nfev": rng.choice([1, 2, 3, 5])})
+            ck.count("limited_solver_effort")
         gname, cname = type(grid).__name__, type(cand).__name__
         case = {"grid": repr(grid), "candidate": str(cand), "truth": str(truth), "image": mode, "options": {k: repr(v) for k, v in kw.items()}, "levels": [vmin, vmax]}
         sig = {"grid": gname, "class": cname, "options": opt if mode != "self" else "self"}
@@ -209,6 +218,26 @@ def run_cases(ck: Check, n: int):
             if st2 == "ok" and "cost0" in rec2 and rec2["cost_x"] > rec2["cost0"] * (1 + 1e-9) + 1e-18:
                 ck.fail(f"squared deviation grew when the refined droplet was refined again: {rec2['cost0']} -> {rec2['cost_x']}",
                         {**sig, "check": "refine_cost_monotone", "second": True}, {**case, "candidate": str(out)})
+        # ---------------- the clause itself, on the droplet that was RETURNED, with an independent rendering: its squared deviation from the
+        # image over the fitted region is not larger than the candidate's (levels: supplied / region extremes / the fitted ones)
+        if "fit_region" in rec and "x" in rec and rec["fit_region"].any():
+            region = rec["fit_region"]
+            data_r = np.asarray(img.data, dtype=float)[region]
+            lv0 = kw.get("vmin", 0.0), kw.get("vmax", 1.0)
+            v0 = float(np.min(data_r)) if lv0[0] is None else float(lv0[0])
+            v1 = float(np.max(data_r)) if lv0[1] is None else float(lv0[1])
+            fitted_levels = bool(kw.get("adjust_values", False)) and (v1 - v0) != 0
+            cand_p = cand0 if isinstance(cand0, DiffuseDroplet) else DiffuseDroplet.from_droplet(cand0)
+            if cand_p.interface_width is None:
+                cand_p = cand_p.copy()
+                cand_p.interface_width = grid.typical_discretization
+            lv_out = (float(rec["x"][-2]), float(rec["x"][-1])) if fitted_levels else (v0, v1 - v0)
+            dev_c = float(np.sum((v0 + (v1 - v0) * cand_p._get_phase_field(grid)[region] - data_r) ** 2))
+            dev_o = float(np.sum((lv_out[0] + lv_out[1] * out._get_phase_field(grid)[region] - data_r) ** 2))
+            ck.count("deviation_of_returned_droplet_evaluated")
+            if dev_o > dev_c * (1 + 1e-7) + 1e-14 * max(1.0, float(np.sum(data_r ** 2))):
+                ck.fail(f"the returned droplet deviates more from the image over the fitted region than the candidate did: {dev_c} -> {dev_o} "
+                        f"(solver status success={rec.get('success')})", {**sig, "check": "refine_cost_monotone", "returned_droplet": True}, {**case, "returned": str(out)})
         # ---------------- the property on the real result
         want_cls = cname if isinstance(cand0, DiffuseDroplet) else "DiffuseDroplet"
         if type(out).__name__ != want_cls:
@@ -323,7 +352,7 @@ def run(ck: Check):
                "displaced by up to 1.5 cells and 20% in radius x images {clean, noisy (8%), rendered from the candidate itself} x intensity levels incl. vmin != 0 x "
                "options {levels given, None, fitted with given / automatic start, defaults}; non-trivial = every distinct fit")
     ck.assumptions = ["scipy.optimize.least_squares: result within bounds and cost not larger than at the start (SolverOK; monitored on every call)",
-                      "the fixed-point clause is checked to 1e-6 (solver tolerance)", "periodic cylindrical grids are excluded here (known finding D12 of C03 affects the rendering used by the fit)"]
+                      "the fixed-point clause is checked to 1e-6 (solver tolerance)", "periodic cylindrical grids are included since the repair of D12 (candidates given by their periodic image: wrapping does not change the picture)"]
     ck.lean = lean_stage("C04", leanchecker=not ck.quick)
     try:
         run_cases(ck, ck.budget(70, 1500))
